@@ -583,6 +583,15 @@ func sendUDP(r *stack.Route, data buffer.VectorisedView, localPort, remotePort u
 	udp := header.UDP(hdr.Prepend(header.UDPMinimumSize))
 
 	// 得到报文的长度
+	// The UDP length field and the IP length field are 16 bits wide: a
+	// datagram that does not fit would go out with wrapped lengths.
+	maxLength := math.MaxUint16
+	if r.NetProto == header.IPv4ProtocolNumber {
+		maxLength -= header.IPv4MinimumSize
+	}
+	if hdr.UsedLength()+data.Size() > maxLength {
+		return tcpip.ErrMessageTooLong
+	}
 	length := uint16(hdr.UsedLength() + data.Size())
 	// UDP首部的编码
 	udp.Encode(&header.UDPFields{
